@@ -63,6 +63,11 @@ StimuliFor(j) ==
              encs == UNION {{EncodeType(d, X, v).bytes : v \in WellFormed(d, X, ValSet(d, X))} : X \in sub}
          IN {[k |-> m, bytes |-> b, val |-> NoneV, label |-> <<"descendant">>] : b \in encs}
             \cup {[k |-> m, bytes |-> s.bytes, val |-> NoneV, label |-> s.label] : s \in DecStimuli(d, P)}
+    [] m = "pyparse" ->
+         LET sub == Descendants(d, id, 6)
+             encs == UNION {{EncodeType(d, X, v).bytes : v \in WellFormed(d, X, ValSet(d, X))} : X \in sub}
+         IN {[k |-> "pyparse", bytes |-> b, val |-> NoneV, label |-> <<"descendant">>] : b \in encs}
+            \cup {[k |-> "pyparse", bytes |-> s.bytes, val |-> NoneV, label |-> s.label] : s \in DecStimuli(d, id)}
     [] m = "up" ->
          {[k |-> "up", bytes |-> <<>>, val |-> v, label |-> <<"valset">>] : v \in WellFormed(d, id, ValSet(d, id))}
     [] m = "enum" ->
@@ -91,7 +96,10 @@ EncResult(j, s) ==
       r == DecodeFull(d, id, e.bytes)
   IN [job |-> j, k |-> "enc", label |-> s.label, val |-> s.val,
       faults |-> e.faults, bytes |-> e.bytes, chunks |-> e.chunks,
-      rt |-> e.faults = {} /\ r.faults = {} /\ r.val = s.val]
+      rt |-> e.faults = {} /\ r.faults = {} /\ r.val = s.val,
+      root |-> Chain(d, id)[1].id,
+      pyback |-> IF e.faults = {} THEN PyParse(d, Chain(d, id)[1].id, e.bytes)
+                 ELSE [faults |-> {}, cls |-> "", val |-> NoneV]]
 
 DecResult(j, s) ==
   LET d == D(j)  id == T(j)
@@ -138,8 +146,15 @@ UpResult(j, s) ==
       bytes |-> EncodeType(d, X, s.val).bytes,
       pbytes |-> IF u.faults = {} THEN EncodeType(d, P, u.val).bytes ELSE <<>>]
 
+PyParseResult(j, s) ==
+  LET r == PyParse(D(j), T(j), s.bytes)
+      re == IF r.faults = {} THEN EncodeType(D(j), r.cls, r.val) ELSE ERes({}, <<>>)
+  IN [job |-> j, k |-> "pyparse", label |-> s.label, bytes |-> s.bytes, faults |-> r.faults,
+      cls |-> r.cls, val |-> r.val, refaults |-> re.faults, reenc |-> re.bytes]
+
 Emit ==
   \/ stim.k = "none"
+  \/ stim.k = "pyparse" /\ PrintT(<<"VEC", ToJson(PyParseResult(job, stim))>>)
   \/ stim.k = "spec" /\ PrintT(<<"VEC", ToJson(SpecResult(job, stim))>>)
   \/ stim.k = "down" /\ PrintT(<<"VEC", ToJson(DownResult(job, stim))>>)
   \/ stim.k = "up" /\ PrintT(<<"VEC", ToJson(UpResult(job, stim))>>)
